@@ -86,25 +86,55 @@ def h_car(H):
             S.explore(body3)
 
 
-def _recursion_args(H, fn, name, base_kwargs, must_match):
-    S = H.session(f"{name}.collection")
+def _recursion_args(H, fn, name_, base_kwargs, must_match, coll=None, tag=""):
+    S = H.session(f"{name_}.collection{tag}")
+    coll = GROUPINGS["interleaved"] if coll is None else coll
+    ngroups = len(np.unique(coll))
 
     def body(it):
+        name = name_ + tag
         ns = z3.Int("ns")
         it.ctx.assume(ns >= 4)
-        coll = GROUPINGS["interleaved"]
         x = A.fresh_array("x", "float64", (len(coll), ns))
         calls = []
+
+        x0 = x.snapshot()
+        gin, gout = [], []
 
         def rec(it_, a, k):
             xx = k.get("x", a[0] if a else None)
             calls.append(dict(k))
-            return A.fresh_array(name + "_group", "float64", xx.shape)
+            gin.append((xx.shape, A.as_sarr(xx).snapshot()))
+            r_ = A.fresh_array(name_ + "_group", "float64", xx.shape)
+            gout.append(r_.snapshot())
+            return r_
         it.session.contracts[fn] = rec
         kwargs = dict(base_kwargs)
         kwargs["collection"] = coll
-        run_function(it, fn, [x], kwargs, keep_contract=True)
-        it.ctx.oblige(f"{name}.collection.calls", z3.BoolVal(len(calls) == 2 and all(c.get("collection", "missing") is None for c in calls)), "post")
+        out = run_function(it, fn, [x], kwargs, keep_contract=True)
+        ids = np.unique(coll)
+        if len(gin) == len(ids) and isinstance(out, SArr):
+            # the grouping is concrete: row by row, the term read from what a group was handed / from the result is compared with the expected one
+            # (structurally after simplification; the solver is asked only about rows that do not match structurally)
+            t = z3.Int("t")
+            it.ctx.assume(z3.And(t >= 0, t < ns))
+            for g, u in enumerate(ids):
+                members = np.flatnonzero(coll == u)
+                m = len(members)
+                rows_in, rows_out = [], []
+                for r_, ch_ in enumerate(members):
+                    a_ = z3.simplify(term(gin[g][1]((z3.IntVal(r_), t))))
+                    b_ = z3.simplify(term(x0((z3.IntVal(int(ch_)), t))))
+                    if not a_.eq(b_):
+                        rows_in.append(a_ == b_)
+                    c_ = z3.simplify(term(out.read((z3.IntVal(int(ch_)), t))))
+                    d_ = z3.simplify(term(gout[g]((z3.IntVal(r_), t))))
+                    if not c_.eq(d_):
+                        rows_out.append(c_ == d_)
+                it.ctx.oblige(f"{name}.collection.group_rows.{g}", z3.And(A.T(gin[g][0][0]) == m, *rows_in[:8]), "post",
+                              "a group is handed to the filter as its own channels in their own (ascending) order - the spatial filters depend on the order", assume=False)
+                it.ctx.oblige(f"{name}.collection.group_back.{g}", z3.And(z3.BoolVal(True), *rows_out[:8]), "post", "and its filtered rows go back to the rows they came from", assume=False)
+        it.ctx.oblige(f"{name}.collection.calls", z3.BoolVal(len(calls) == ngroups and all(c.get("collection", "missing") is None for c in calls)), "post")
         import inspect
         defaults = {k: v.default for k, v in inspect.signature(fn).parameters.items() if v.default is not inspect.Parameter.empty}
         for key in must_match:
@@ -408,6 +438,16 @@ def native_car(rng):
         y = V.car(x.copy(), operator="average")
         if not np.allclose(y.mean(axis=0), 0, atol=1e-9):
             bad.append((gname, "average without collection"))
+        if len(coll) >= 100:
+            # the spatial filters depend on the order of the channels inside a group: groups == each group on its own, channels in their own order
+            xs = np.cumsum(rng.standard_normal((len(coll), 64)), axis=0)
+            kw = dict(ntr_pad=2, ntr_tap=0, lagc=None, butter_kwargs={"N": 3, "Wn": 0.05, "btype": "highpass"})
+            yk = V.kfilt(xs.copy(), collection=coll, **kw)
+            for g in np.unique(coll):
+                sel = coll == g
+                # (a group gets no mirrored padding and hence no lateral taper: what the recursion hands over, harness kfilt_fk_recursion)
+                if not np.allclose(yk[sel], V.kfilt(xs[sel].copy(), **dict(kw, ntr_pad=0, ntr_tap=None)), atol=1e-9):
+                    bad.append((gname, "kfilt with groups differs from the group filtered on its own", float(g)))
     return bad
 
 
@@ -488,3 +528,4 @@ def b_native(B):
 
 from pyvc.api import depends  # noqa: E402
 depends(PROPERTY, "C08", ["adc_tables"])      # "recorded with each channel's ADC sampling delay": the delay table destripe re-aligns with (trace_header -> adc_shifts), every channel of every generation
+depends(PROPERTY, "C15", ["interpolate_iteration"])      # destripe repairs dead / noisy channels before the spatial filter: only good or outside-brain channels are sources (a dead neighbour would carry no common signal)
